@@ -1145,3 +1145,133 @@ func init() {
 	add("C12", "(R7) the committer calls the pre-validated entry under the same require-height predicate on the request's base as the worker branches on (the check of C11.R1): with different predicates a request that straddles the height is fetched in one regime and committed in the other, and the sync wedges; (R8) on the checkpoint side of that predicate the peer's blocks are stored in the response only behind the equal side of a comparison of Block.ID() of the last element (or of every element in a loop) with a BlockID that does not come from the received list — validation alone accepts any valid fork on top of the base.")
 	add("C13", "(R13) the exported pool adder for v2 sets (results (bool, error)) returns a nil error only behind the success side of the rebasing step; (R14) in every loop of the reorg-path walk an index is recorded before it is stepped to its parent.")
 }
+
+func init() {
+	register(&Rule{ID: "C17.R6", Prop: "C17", Floor: 2, Doc: "the caching bucket records every accepted put / delete in its overlay: no success return of its Put or Delete bypasses the overlay's", Run: c17r6})
+	Explanations["C17"] += " (R6) every return of the caching bucket's Put / Delete that can report success lies behind (or is) the call of the overlay bucket's Put / Delete — a write skipped because the backend already holds the value leaves an unflushed delete or overwrite of that key in force. (R3, strengthened) MemDB.Cancel removes the entries of each overlay by walking that overlay's own keys (or clearing / replacing it)."
+}
+
+// c17r6: CacheDB answers reads from its overlay first, so a write that is not recorded there is invisible behind an
+// older unflushed delete or overwrite of the same key, whatever the backend holds.
+func c17r6(c *Ctx) {
+	cbT, mbT := cacheBucketType(c.P), memBucketType(c.P)
+	n := 0
+	for _, name := range []string{"Put", "Delete"} {
+		f := c.P.Fn("chain", cbT, name)
+		if f == nil {
+			continue
+		}
+		overlay := c.P.Method("chain", mbT, name)
+		g := f.Graph()
+		n++
+		c.VisitGraph(f)
+		ob := c.Ob(f, "write-reaches-overlay", f.Body.Pos())
+		if f.Obj == overlay || (recvNamed(f.Obj) != nil && recvNamed(f.Obj).Obj().Name() == mbT) {
+			ob.OK("the caching bucket embeds the overlay bucket: its %s is the overlay's", name)
+			continue
+		}
+		records := func(nd *cfgx.Node) bool {
+			if nd.AST == nil {
+				return false
+			}
+			_, ok := f.NodeCallsTo(nd, overlay)
+			return ok
+		}
+		var wit *cfgx.Visit
+		for nd, v := range g.Reach([]*cfgx.Visit{cfgx.StartAt(g.Entry, 0)}, records) {
+			if _, isRet := nd.AST.(*ast.ReturnStmt); isRet && !records(nd) && f.ClassifyReturn(nd) != ir.RetError && wit == nil {
+				wit = v
+			}
+		}
+		if wit != nil {
+			ob.Bad(c.Witness(wit), "%s can report success without having called the overlay bucket's %s: the write is not visible behind an unflushed delete or overwrite of the same key (reads consult the overlay first), and the next flush makes the older state durable", f.Name(), name)
+		} else {
+			ob.OK("every success path goes through the overlay")
+		}
+	}
+	if n == 0 {
+		ir.Fail("the caching bucket's Put / Delete not found")
+	}
+}
+
+func init() {
+	register(&Rule{ID: "C15.R8", Prop: "C15", Floor: 2, Doc: "a contractor credits each deposit onto the balance as it stands in that iteration (read-modify-write per deposit), so repeated keys accumulate", Run: c15r8})
+	Explanations["C15"] += " (R8) in every implementation of Contractor.CreditAccountsWithContract / CreditPoolsWithContract each store into a balance table inside the loop over the deposits takes its value from a read of that table's entry in the same iteration (directly or through locals of the iteration): balances computed up front from the state before the call make a second deposit to the same key overwrite the first, while the revision moved the sum of both. (R5, strengthened) the mark in the seen-set is the constant true; the alternative design 'duplicates are rejected' is recognised only when the hit side of the membership test really ends in an error."
+}
+
+// c15r8: `for _, d := range deposits { bal[d.Account] = bal[d.Account].Add(d.Amount) }` — the read and the store sit in
+// one iteration. Splitting them ("compute all new balances, then store them") credits a key listed twice only once.
+func c15r8(c *Ctx) {
+	n := 0
+	for _, name := range []string{"CreditAccountsWithContract", "CreditPoolsWithContract"} {
+		if !c.P.HasMethod("rhp", "Contractor", name) {
+			continue
+		}
+		for _, raw := range implsOf(c, c.P.Method("rhp", "Contractor", name)) {
+			f := c.P.Expand(raw, ir.ExpandOpt{Key: "all"})
+			g := f.Graph()
+			isBalances := func(e ast.Expr) *types.Var {
+				fld := f.FieldOf(e)
+				if fld == nil {
+					return nil
+				}
+				mt, ok := fld.Type().Underlying().(*types.Map)
+				if !ok || !ir.IsNamed(mt.Elem(), ir.PkgPath("types"), "Currency") {
+					return nil
+				}
+				return fld
+			}
+			ir.Walk(f.Body, false, func(x ast.Node) {
+				rs, ok := x.(*ast.RangeStmt)
+				if !ok {
+					return
+				}
+				for _, nd := range g.Nodes {
+					if nd.AST == nil || !containsNode(rs.Body, nd.AST) {
+						continue
+					}
+					for _, w := range f.WritesIn(nd.AST, false) {
+						ix, isIx := ast.Unparen(w.LHS).(*ast.IndexExpr)
+						if !isIx || w.RHS == nil {
+							continue
+						}
+						tbl := isBalances(ix.X)
+						if tbl == nil {
+							continue
+						}
+						n++
+						c.VisitGraph(f)
+						ob := c.Ob(f, "credit-reads-current-balance", nd.Pos())
+						// the stored value, with locals of this iteration resolved
+						reads := false
+						var visit func(e ast.Expr, depth int)
+						visit = func(e ast.Expr, depth int) {
+							ast.Inspect(e, func(y ast.Node) bool {
+								switch t := y.(type) {
+								case *ast.IndexExpr:
+									if isBalances(t.X) == tbl {
+										reads = true
+									}
+								case *ast.Ident:
+									if depth < 3 {
+										for _, d := range wholeDefs(f, f.ObjOf(t)) {
+											if d.RHS != nil && containsNode(rs.Body, d.Stmt) {
+												visit(d.RHS, depth+1)
+											}
+										}
+									}
+								}
+								return true
+							})
+						}
+						visit(w.RHS, 0)
+						ob.Check(reads, nil, "%s stores a balance at %s that was not read from the table in the same iteration over the deposits: a key that is listed twice is credited once (the second store overwrites the first), while the contract revision moves the sum of both deposits", f.Name(), c.P.Pos(nd.Pos()))
+					}
+				}
+			})
+		}
+	}
+	if n == 0 {
+		ir.Fail("no balance store inside a loop over deposits found in the contractors' credit methods")
+	}
+}
